@@ -218,6 +218,9 @@ ADg == /\ E.ev = "a_datagram"
 Timeout == /\ E.ev = "timeout"
            /\ Judge(<< <<E.op \in {"p_read_datagram", "a_read_datagram"}, "a wait never ended: bytes, end of stream or an error never arrived">> >>)
            /\ UNCHANGED <<scn, cfg, st, nopen, closed, aclosed, dgs, dgp>>
+Panic == /\ E.ev = "panic"
+         /\ Judge(<< <<FALSE, "the adapter panicked">> >>)
+         /\ UNCHANGED <<scn, cfg, st, nopen, closed, aclosed, dgs, dgp>>
 Unknown == /\ E.ev \in {"a_send", "a_ready", "a_poll_send", "a_finish", "a_reset", "p_read", "p_stop", "a_write_until_err_done", "p_write", "p_fin",
                         "p_reset", "a_data", "a_stop", "p_stopped", "a_id"} /\ ~Known
            /\ Judge(<< <<FALSE, "event on a stream the model does not know">> >>)
@@ -227,14 +230,14 @@ Quiesce == /\ E.ev = "quiesce"
            /\ UNCHANGED <<scn, cfg, st, nopen, closed, aclosed, dgs, dgp, ok, why>>
 Handled == {"reset", "a_opened", "p_opened", "a_accepted", "p_accepted", "a_send", "a_ready", "a_poll_send", "a_finish", "a_reset", "p_read", "p_stop",
             "a_write_until_err_done", "p_write", "p_fin", "p_reset", "a_data", "a_stop", "p_stopped", "a_id", "p_close", "p_saw_close",
-            "a_send_datagram", "p_datagram", "p_send_datagram", "a_datagram", "timeout", "quiesce"}
+            "a_send_datagram", "p_datagram", "p_send_datagram", "a_datagram", "timeout", "panic", "quiesce"}
 Skip == ~(E.ev \in Handled) /\ UNCHANGED <<scn, cfg, st, nopen, closed, aclosed, dgs, dgp, ok, why>>
 
 Next == /\ l <= Len(Rec) /\ l' = l + 1
         /\ \/ Reset \/ AOpened \/ POpened \/ AAccepted \/ PAccepted
            \/ ASend \/ AReady \/ APollSend \/ AFinish \/ AReset \/ PRead \/ PStop \/ UntilErrDone
            \/ PWrite \/ PFin \/ PReset \/ AData \/ AStop \/ PStopped \/ AId
-           \/ PClose \/ PSawClose \/ ASendDg \/ PDg \/ PSendDg \/ ADg \/ Timeout \/ Unknown \/ Quiesce \/ Skip
+           \/ PClose \/ PSawClose \/ ASendDg \/ PDg \/ PSendDg \/ ADg \/ Timeout \/ Panic \/ Unknown \/ Quiesce \/ Skip
 Spec == Init /\ [][Next]_vars
 TraceAccepted == TLCGet("stats").diameter - 1 = Len(Rec)
 =============================================================================
